@@ -659,6 +659,16 @@ impl C02 {
                 // and the object must still work afterwards
                 let c2 = self.make_call(rng, &spec, b"ACCGTGGATGGAT".to_vec(), b"ACCGTGGAAGGAT".to_vec(), 8, 3, 0);
                 self.check_call(ctx, &mut al, &spec, &c2, 1, true);
+                // the same through the mode wrappers, on an object whose configured clip penalties are finite and distinct:
+                // the sentinel path must leave the configuration as it was for the custom call that follows
+                let spec3 = Spec { mf: cm(2, -2), open: -3, ext: -1, clips: [-3, -2, -4, -1], sigma: 2, ms_hint: true };
+                let mut al3 = Aligner::with_scoring(spec3.scoring(), 8, 3);
+                for (h, entry) in [10usize, 8, 7].into_iter().enumerate() {
+                    let big = self.make_call(rng, &spec3, vec![b'A'; 3300], vec![b'C'; 3300], 8, 3, entry);
+                    self.check_call(ctx, &mut al3, &spec3, &big, 2 * h, false);
+                    let small = self.make_call(rng, &spec3, b"TTACCGTGGATGGATCC".to_vec(), b"ACCGTGGAAGGATGG".to_vec(), 8, 3, 0);
+                    self.check_call(ctx, &mut al3, &spec3, &small, 2 * h + 1, true);
+                }
             }
             38 => {
                 // 2301^2 = 5.29M cells (above the implemented, below the documented budget): either outcome allowed
